@@ -74,7 +74,18 @@ BmItem == /\ Scope = "bindmany" /\ phase < MaxItems
           /\ \/ prog' = Append(prog, MDef(CountKind(prog, "def") + 1))
              \/ CountKind(prog, "bind") < 3 /\ \E b \in MBind : prog' = Append(prog, b)
           /\ phase' = phase + 1 /\ UNCHANGED <<body, last>>
-Next == ScFirst \/ ScItem \/ ScBodyDone \/ ScLast \/ BlItem \/ BiItem \/ BmItem
+\* fields3 (C02): def a { A  def b { B  def c { C }  D }  E } — the same field name f assigned (or a variable f declared) at several
+\* levels, read and re-assigned from the innermost block and after inner blocks have ended: the nearest enclosing holder wins,
+\* a closed block's fields are gone
+F3A == { None, SExpr(Asg("f", L1)), SVar("f", TRUE, Lit(IntV(5))) }
+F3B == { None, SExpr(Asg("f", L2)), SVar("f", TRUE, Lit(IntV(6))) }
+F3C == { None, SPrint(Id("f")), SExpr(Asg("f", Bin("+", Id("f"), Lit(IntV(10))))), SExpr(Asg("g", Id("f"))), SExpr(Asg("f", Lit(IntV(3)))) }
+F3D == { None, SPrint(Id("f")), SExpr(Asg("g", Id("f"))) }
+Fields3 == /\ Scope = "fields3" /\ phase = 0
+           /\ \E a \in F3A, b \in F3B, c \in F3C, d \in F3D, e \in F3D :
+                prog' = << SDef("a", "", Opt(a) \o << SDef("b", "", Opt(b) \o (IF c = None THEN <<>> ELSE << SDef("c", "", <<c>>) >>) \o Opt(d)) >> \o Opt(e)) >>
+           /\ phase' = 1 /\ UNCHANGED <<body, last>>
+Next == Fields3 \/ ScFirst \/ ScItem \/ ScBodyDone \/ ScLast \/ BlItem \/ BiItem \/ BmItem
 Spec == Init /\ [][Next]_vars
 
 RECURSIVE BlkJ(_)
@@ -82,12 +93,13 @@ EntJ(e) == IF e.kind = "val" THEN [k |-> e.k, kind |-> "val", t |-> e.v.t, n |->
            ELSE [k |-> e.k, kind |-> "blk", t |-> "", n |-> 0, d |-> 1, s |-> <<>>, b |-> <<BlkJ(e.b)>>]
 BlkJ(b) == [type |-> b.type, name |-> b.name, ents |-> [i \in 1..Len(b.ents) |-> EntJ(b.ents[i])]]
 NonTrivial == CASE Scope = "scope" -> Len(body) >= 2
+                [] Scope = "fields3" -> TRUE
                 [] Scope = "blocks" -> CountKind(prog, "def") >= 2
                 [] Scope \in {"bind", "bindmany"} -> CountKind(prog, "bind") >= 1 /\ CountKind(prog, "def") >= 1
 Case == LET m == Meaning(prog) IN
         [ fam |-> "prog", src |-> RenSeq(prog), class |-> m.class, out |-> m.out, err |-> m.err, warn |-> m.warn,
           result |-> [i \in 1..Len(m.result) |-> BlkJ(m.result[i])],
           bkind |-> m.binding.kind, bblocks |-> [i \in 1..Len(m.binding.blocks) |-> BlkJ(m.binding.blocks[i])], nt |-> NonTrivial ]
-Complete == (Scope = "scope" /\ phase = 100) \/ (Scope \in {"blocks", "bind", "bindmany"} /\ phase >= 1)
+Complete == (Scope = "scope" /\ phase = 100) \/ (Scope \in {"blocks", "bind", "bindmany", "fields3"} /\ phase >= 1)
 Emit == Complete => PrintT(<<"CASE", ToJson(Case)>>)
 ====
